@@ -596,7 +596,9 @@ func (g *c08Gen) genProg(t *hTx, mode string) string {
 	}
 	budget := []int{0, 0, 0, 0, 0, 0, 0, 1, 1, 1, 1, 1, 1, 2, 2, 2, 2, 3, 3, 3}[r.intn(20)]
 	failPending := failAt == 2
-	g.progItems(&sb, len(t.Ops), &budget, 0, &failPending, mode)
+	// part of the operations (possibly none) may be done with a second context built around the running
+	// transaction (store_c08_w3.go)
+	g.progBody(&sb, len(t.Ops), &budget, &failPending, mode, 22)
 	if budget > 0 && r.chance(50) {
 		sb.WriteString("uc)") // a nested call that only registers
 	}
@@ -685,6 +687,9 @@ func c08ProgStats(stats map[string]int, prog string) {
 			if depth > 0 {
 				stats["prog_ops_in_nested_call"]++
 			}
+		case 'x':
+			depth++
+			stats["prog_second_context_block"]++
 		case 'c', 'p', 'f', 'q':
 			if depth > 0 {
 				inNested++
